@@ -114,7 +114,7 @@ def repeat_cases(rng, tier):
     effects read what its unconditional group writes (props/c03.plant_read_write)"""
     from .c03 import plant_read_write
     cases = []
-    for _ in range({"quick": 12, "thorough": 80}[tier]):
+    for _ in range({"quick": 10, "thorough": 80}[tier]):
         w = G.gen_world(rng, max_actions=2)
         info = plant_read_write(rng, w, guarded=rng.random() < 0.7)
         en = plant_enabler(rng, w, info)
@@ -148,13 +148,16 @@ def shape_cases(rng, tier):
     """actions whose precondition is of ONE kind only (only (in)equalities between parameters, only a forall, only a nested
     'or', only numeric comparisons, empty ...; harness/guardgen.py), walked by random plans whose steps violate them (the same
     object for both compared parameters) and satisfy them, both switch values"""
-    from ..guardgen import shape_preconditions
+    from ..guardgen import SHAPES, shape_preconditions
     cases = []
-    for _ in range({"quick": 14, "thorough": 90}[tier]):
-        w = G.gen_world(rng, max_actions=2)
-        shapes = shape_preconditions(rng, w)
-        objs = G.gen_objects(rng, w)
-        calls = all_calls(rng, w, objs)
+    for i in range({"quick": len(SHAPES), "thorough": 8 * len(SHAPES)}[tier]):
+        for _try in range(8):
+            w = G.gen_world(rng, max_actions=2)
+            shapes = shape_preconditions(rng, w, shapes=[SHAPES[i % len(SHAPES)]])      # every shape in every run
+            objs = G.gen_objects(rng, w)
+            calls = all_calls(rng, w, objs)
+            if calls and SHAPES[i % len(SHAPES)] in shapes:
+                break
         if not calls:
             continue
         st = G.gen_state(rng, w, objs)
@@ -364,6 +367,15 @@ def run(args):
         cases = [data["input"]["case"]]
     else:
         cases = corpus_cases() + fixture_cases(args.tier) + gen_cases(rng, args.tier) + repeat_cases(rng, args.tier) + shape_cases(rng, args.tier)
+        # the shipped plans have large states (their shards are the slow ones): one of them per shard of 24 cases
+        big = [c for c in cases if c["kind"].startswith("fixture")]
+        rest = [c for c in cases if not c["kind"].startswith("fixture")]
+        cases = []
+        while big or rest:
+            if big:
+                cases.append(big.pop(0))
+            cases += rest[:23]
+            rest = rest[23:]
     cfg = run_impl([{"op": "core.numeric_config"}], nproc=1)[0]
     hashseeds = [0] if args.tier == "quick" else [0, 1]
     all_cases, all_verdicts = [], ""
@@ -474,7 +486,13 @@ def run(args):
         "actions, so applicable and inapplicable steps occur at every position (table position_*); each plan is run with allow_invalid_actions "
         "False and True; 60% of the plans have upper-cased tokens / tabs / extra blanks / CRLF in their lines. Plus one malformed line "
         "(unknown action, blank, missing/surplus argument, no parentheses, trailing text) planted in a short plan, and the 6 planner plans "
-        "shipped under tests/exporters_tests with their domain/problem pairs (prefix only in the quick tier). Observables: every triplet's "
+        "shipped under tests/exporters_tests with their domain/problem pairs (prefix only in the quick tier). "
+        "repeat: plans in which the SAME grounded call with numeric effects is executed twice or more (in a row and "
+        "with other steps between), refused first and executed later (an enabling action in between), executed and refused later - the action's "
+        "'when' / 'forall-when' effects read the fluent its unconditional group writes (table repeated_calls). guard-shape: actions whose precondition "
+        "is of ONE kind only (only (in)equalities between parameters, only a forall, only a nested 'or', only numeric comparisons, empty; every shape "
+        "in every run) walked by plans whose steps violate and satisfy them (table guard_shapes). Every state of every triplet is serialized AFTER "
+        "parse_plan returned (a post-state rewritten by a later step is seen). Observables: every triplet's "
         "pre-state, operator text and post-state re-read from State.serialize(), Operator.apply applied directly to each pre-state "
         "(returned state / ValueError / other), and the exported trajectory text read back inside Coq by the tokenizer model. "
         "A case is non-trivial when it is malformed, or has >= 2 steps among which one is applicable and one is not; distinct by input hash.")
